@@ -58,3 +58,49 @@ example : renameText "foo".toList "sub/bar".toList "see [[foo]] [[foo#x]] [[foob
 example : linkSafe "sicp(2e)".toList = true ∧ linkSafe "a#b".toList = false := by decide
 
 end ZorgVerif.C14
+
+namespace ZorgVerif.C14
+open ZorgVerif ZorgVerif.Rename
+
+/-- **The link name of the renamed file**: only a trailing `.zo` is dropped; a query page or template keeps its extension
+in links (`[[inbox.zoq]]`), so renaming `inbox.zoq` never touches links to the page `inbox` (seed C14-2) -/
+theorem C14_link_name (a : Str) :
+    simplify (a ++ ".zo".toList) = a ∧
+    simplify (a ++ ".zoq".toList) = a ++ ".zoq".toList ∧
+    simplify (a ++ ".zot".toList) = a ++ ".zot".toList := by
+  have key : ∀ (x : Str) (c : Char), ¬ (".zo".toList <:+ x ++ [c]) ∨ c = 'o' := by
+    intro x c
+    by_cases hc : c = 'o'
+    · exact Or.inr hc
+    · refine Or.inl ?_
+      intro ⟨t, ht⟩
+      have := congrArg List.getLast? ht
+      simp at this
+      exact hc this.symm
+  refine ⟨?_, ?_, ?_⟩
+  · unfold simplify
+    have : ".zo".toList.isSuffixOf (a ++ ".zo".toList) = true := by
+      rw [List.isSuffixOf_iff_suffix]; exact List.suffix_append _ _
+    simp [this]
+  · unfold simplify
+    have : ".zo".toList.isSuffixOf (a ++ ".zoq".toList) = false := by
+      rcases key (a ++ ".zo".toList) 'q' with h | h
+      · cases hb : ".zo".toList.isSuffixOf (a ++ ".zoq".toList) with
+        | false => rfl
+        | true =>
+          rw [List.isSuffixOf_iff_suffix] at hb
+          exact absurd (by simpa using hb) h
+      · exact absurd h (by decide)
+    rw [if_neg (by rw [this]; simp)]
+  · unfold simplify
+    have : ".zo".toList.isSuffixOf (a ++ ".zot".toList) = false := by
+      rcases key (a ++ ".zo".toList) 't' with h | h
+      · cases hb : ".zo".toList.isSuffixOf (a ++ ".zot".toList) with
+        | false => rfl
+        | true =>
+          rw [List.isSuffixOf_iff_suffix] at hb
+          exact absurd (by simpa using hb) h
+      · exact absurd h (by decide)
+    rw [if_neg (by rw [this]; simp)]
+
+end ZorgVerif.C14
